@@ -21,6 +21,8 @@ global size_of usize == 8;
 //@extract struct renet/src/channel/reliable.rs ReceiveChannelReliable
 
 //@include contracts/shared/sum_specs.rs
+//@include contracts/shared/count_specs.rs
+//@include contracts/shared/slice_specs.rs
 //@include contracts/shared/sc_specs.rs
 //@include contracts/shared/recv_reliable_specs.rs
 
